@@ -202,8 +202,8 @@ def zones_around(v, rng):
         for _ in range(rng.range(1, 4)):
             off = rng.choice([0, 0, 1, -1, rng.range(-spread, spread) if spread else 0])
             stamps.append(anchor + off)
-        if rng.chance(1, 12):
-            stamps.append(-rng.range(1, 100))           # a pre-epoch straggler
+        if rng.chance(1, 12) and max(stamps) <= 10 ** 8:
+            stamps.append(-rng.range(1, 100))           # a pre-epoch straggler (range kept short: the calendar loops per hour)
         zs.append([zid, stamps])
     return zs
 
